@@ -17,7 +17,9 @@ RULE = ('molecule (corpus / curated / generator / ring assemblies, normal state)
         'through the query API; the set of matched atoms / ordered atom pairs must equal the set selected by an independently '
         'computed attribute vector. plus: stereo-marked queries against both enantiomers, and every bracket/bond token string up '
         'periodic-table sweep of element / #n / element lists / A / M; ring marks combined with cis/trans marks on one bond; QueryElement.from_atom with drawn flags. to 3 tokens for the reject-or-query clause. non-trivial = the query selects a proper non-empty subset; distinct by '
-        '(query text, molecule string)')
+        '(query text, molecule string)'
+        '; also: single counts reach the constructors as plain ints (incl. 0).'
+        '; also: query by example: two-atom queries written after a bond of the molecule, second atom with one primitive it has / has not (ring sizes: one of its sizes).')
 ASSUMPTIONS = ['attribute vectors: neighbours/heteroatoms/hybridisation from the adjacency by the documented definitions, ring '
                'membership and sizes from vf/oracles/mcb.py (ring-size primitives only where the minimum cycle basis is unique), '
                'hydrogens as stored on the atom (decided in C04/C05)',
@@ -467,7 +469,7 @@ def check_case(case, rec):
                      sig='from_atom:' + ','.join(k for k, f in flags.items() if f))
             return
     bonds = {(a, b): bond for a, k in m._bonds.items() for b, bond in k.items()}
-    for q1, b, q2 in case['pairs']:
+    for q1, b, q2 in list(case['pairs']) + derived_pairs(m, vec, _random.Random(len(ms) * 104729 + case.get('explicit_h', 0)), rec):
         q1, q2 = [dict(q, iso=None) if q['iso'] and (q['el'][0] in ('any', 'list', 'metal') or not tabulated(q)) else q
                   for q in (q1, q2)]
         bt = bond_text(b)
@@ -512,6 +514,48 @@ def check_case(case, rec):
             if want and len(want) < len(bonds):
                 rec.nt((full, ms))
                 rec.sample('pair-query', dict(smarts=full, molecule=ms, pairs=len(want)), cap=5)
+
+
+def derived_pairs(m, vec, rnd, rec, k=5):
+    """two-atom queries written after a bond of the molecule itself (query by example): the first atom is named by element (sometimes
+    with one primitive), the second - the one the matcher reaches by neighbour expansion - carries exactly one primitive whose value
+    is, three times out of four, one the atom has (for ring sizes: ONE of its sizes, so that atoms in rings of two sizes are met by a
+    query that lists only one of them) and otherwise one it does not have.  Drawn independent pairs rarely match anything; these do"""
+    bonds = [(x, y, b.order) for x, nb in m._bonds.items() for y, b in nb.items()
+             if vec[x]['z'] != 1 and vec[y]['z'] != 1 and vec[x]['sym'] not in AMBIGUOUS and vec[y]['sym'] not in AMBIGUOUS]
+    out = []
+    if not bonds:
+        return out
+
+    def q_of(n, rich):
+        v = vec[n]
+        q = dict(el=('sym', v['sym']), iso=None, charge=v['charge'], radical=v['radical'], D=None, h=None, x=None, z=None, r=None)
+        if not rich:
+            return q
+        key = rnd.choice(['D', 'h', 'x', 'z', 'r', 'r', 'r'])
+        truth = rnd.random() < .75
+        if key == 'D' and v['D'] <= 4:
+            q['D'] = [v['D'] if truth else (v['D'] + 1) % 5]
+        elif key == 'h' and v['h'] is not None and v['h'] <= 3:
+            q['h'] = [v['h'] if truth else (v['h'] + 1) % 4]
+        elif key == 'x' and v['x'] <= 3:
+            q['x'] = [v['x'] if truth else (v['x'] + 1) % 4]
+        elif key == 'z':
+            q['z'] = [v['hyb'] if truth else v['hyb'] % 4 + 1]
+        elif key == 'r' and v['rsizes'] is not None:
+            sizes = sorted(s for s in v['rsizes'] if 3 <= s <= 8)
+            if not v['rsizes']:
+                q['r'] = '!R' if truth else [rnd.choice([5, 6])]
+            elif sizes and len(sizes) == len(v['rsizes']):
+                other = [s for s in range(3, 9) if s not in v['rsizes']]
+                q['r'] = [rnd.choice(sizes)] if truth else [rnd.choice(other)]
+                if truth and len(sizes) > 1:
+                    rec.count('derived-pairs:second atom in rings of two sizes, query lists one of them')
+        return q
+    for _ in range(k):
+        x, y, o = rnd.choice(bonds)
+        out.append((q_of(x, rnd.random() < .3), dict(orders=[o], neg=False, ring=None), q_of(y, True)))
+    return out
 
 
 # ---------------------------------------------------------------------------------------------------
